@@ -105,6 +105,7 @@ type lkCase struct {
 	desc     string
 	sub      uint64
 	d10      bool
+	fault    *lkFault // lookups_fault.go: write faults, busy Get consumer, reply order
 }
 
 func (c *lkCase) name() string { return fmt.Sprintf("%s/%s", c.api, c.desc) }
@@ -165,6 +166,7 @@ type lkState struct {
 	consDone   chan struct{}
 	served     map[string]int // addr -> replies with R served
 	gateBroken int32
+	fx         *lkFaultState // lookups_fault.go
 }
 
 func dumpReturn(r *krpc.Return) string {
@@ -450,7 +452,7 @@ func runLookupOnce(c *lkCase, rep int, report bool) (*lkState, lkResult) {
 		}
 	}
 	cfg := &dht.ServerConfig{
-		Conn:             st.conn,
+		Conn:             st.packetConn(),
 		NoSecurity:       true,
 		QueryResendDelay: st.resendDelay,
 		Logger:           log.NewLogger().FilterLevel(log.Critical),
@@ -555,7 +557,7 @@ func runLookupOnce(c *lkCase, rep int, report bool) (*lkState, lkResult) {
 			if c.mutable {
 				saltArg = c.salt
 			}
-			ret, _, err := getput.Get(ctx, c.target, s, c.seqArg, saltArg)
+			ret, _, err := getput.Get(st.apiCtx(ctx), c.target, s, c.seqArg, saltArg)
 			res.getRet, res.err = ret, err
 			close(apiDone)
 		}()
@@ -707,8 +709,8 @@ func runLookupOnce(c *lkCase, rep int, report bool) (*lkState, lkResult) {
 		if stopped && c.api != "bootstrap" {
 			pending = nil
 		}
-		if len(pending) > 0 {
-			i := r.intn(len(pending))
+		if len(pending) > 0 && st.replyReady() {
+			i := st.pickReply(pending, r)
 			q := pending[i]
 			pending = append(pending[:i], pending[i+1:]...)
 			b := st.replyFor(q)
@@ -796,6 +798,7 @@ func runLookupOnce(c *lkCase, rep int, report bool) (*lkState, lkResult) {
 			oracle(prop, key, "no end within 8s case=%d %s sn=%s stop=%s@%d sub=%d", c.idx, c.name(), c.sn, c.stopAct, c.stopAt, c.sub)
 			break
 		}
+		st.faultIdle()
 		select {
 		case q := <-st.queue:
 			st.queue <- q // put back and let drain() number it (the queue is deep enough)
@@ -868,6 +871,7 @@ func runLookupOnce(c *lkCase, rep int, report bool) (*lkState, lkResult) {
 	}
 	if report {
 		st.oracles(&res)
+		st.faultOracles(&res)
 	}
 	// ---------------- quiescence ----------------
 	dl := time.Now().Add(2 * time.Second)
@@ -1492,6 +1496,7 @@ func lookupCases(seed uint64, tier string) []lkCase {
 				stopAt: -1, consStop: -1, desc: "reply-with-key-but-no-seq"})
 		}
 	}
+	lkFaultCases(root, tier, add) // lookups_fault.go
 	return cs
 }
 
